@@ -3,7 +3,7 @@
    The scripts symbolically execute the regenerated monadic text (msim) and use loop lemmas that are generic in
    the loop body, so renamed locals, hoisted subexpressions and split / merged statements go through; a refused
    method is an alias of the hand model's form and goes through the same scripts. *)
-From Coq Require Import List ZArith Bool Lia.
+From Coq Require Import List ZArith Bool Lia ZifyBool.
 From DV Require Import Base.PyList Base.C18_Lists Model.C18_Logbook Model.C18_GenRt Proofs.C18_Logbook.
 From DV Require Import Gen.C18_gen.
 Import ListNotations.
@@ -50,11 +50,23 @@ Ltac chapters_step f cs :=
       end
   end.
 
+(* the same call written with two arithmetically equal arguments *)
+Ltac unify_calls f :=
+  repeat match goal with
+         | |- context [f ?a] =>
+             match goal with
+             | |- context [f ?b] => lazymatch a with b => fail | _ => replace a with b by lia end
+             end
+         end.
+
 Lemma gen_pop_body_eq : forall f i l, gen_pop_body f i l = pop_body f i l.
 Proof.
   intros f i [rs bf cs h g]. unfold gen_pop_body. try reflexivity.
   all: unfold pop_body; munf; destruct (py_get rs i) as [it|]; [|reflexivity].
-  all: repeat (cbn iota beta; munf; try mcase); try (chapters_step f cs); try reflexivity; try lia.
+  all: repeat (cbn iota beta; munf; try mcase).
+  all: try (exfalso; lia).
+  all: unify_calls f; try (chapters_step f cs); try reflexivity.
+  all: try (repeat f_equal; lia).
 Qed.
 
 Theorem gen_pop_eq : forall i l, gen_pop i l = lb_pop i l.
@@ -114,8 +126,11 @@ Proof.
     [ reflexivity
     | cbn [zlen length Z.of_nat Z.eqb Pos.eqb Pos.of_succ_nat]
     | replace (zlen (n :: n2 :: r) =? 1) with false by (unfold zlen; cbn [length]; lia) ].
-  all: cbv beta zeta iota delta [bind ret iter_self].
-  all: erewrite mapM_pure; [reflexivity|]; intros x _; reflexivity.
+  all: cbv beta zeta iota delta [bind ret iter_self indexM raise].
+  all: repeat (erewrite mapM_pure
+                 by (intros; cbv beta zeta iota delta [bind ret iter_self indexM raise]; reflexivity);
+               cbv beta zeta iota).
+  all: reflexivity.
 Qed.
 
 (* ---- Statistics / MultiStatistics ---- *)
